@@ -371,8 +371,30 @@ impl TypeInfo for Skip {
     }
 }
 
+// distinct identities with EQUAL portable definitions on consecutive ids ([u8] and [Box<u8>] are both "sequence of u8";
+// Option<u8> / Option<Box<u8>>; [u8; 2] / [&u8; 2]): a registry that merges entries by definition breaks on these
+struct Blob;
+impl TypeInfo for Blob {
+    type Identity = Self;
+    fn type_info() -> Type {
+        Type::builder().path(Path::new("Blob", "pool")).composite(
+            Fields::named()
+                .field(|f| f.ty::<u8>().name("tag"))
+                .field(|f| f.ty::<Vec<u8>>().name("raw"))
+                .field(|f| f.ty::<Vec<Box<u8>>>().name("boxed"))
+                .field(|f| f.ty::<Option<u8>>().name("o1"))
+                .field(|f| f.ty::<Option<Box<u8>>>().name("o2"))
+                .field(|f| f.ty::<[u8; 2]>().name("a1"))
+                .field(|f| f.ty::<[&'static u8; 2]>().name("a2"))
+                .field(|f| f.ty::<bool>().name("last")),
+        )
+    }
+}
+
 fn pool() -> Vec<(&'static str, MetaType)> {
     vec![
+        ("Blob", meta_type::<Blob>()),
+        ("(u8,u8,bool,u8)", meta_type::<(u8, u8, bool, u8)>()),
         ("u8", meta_type::<u8>()),
         ("Vec<u8>", meta_type::<Vec<u8>>()),
         ("[u8]", meta_type::<[u8]>()),
